@@ -649,6 +649,47 @@ def r04_9(ctx):
     ctx.note("inventory", counts)
 
 
+def subject_to_scenarios(f):
+    """Outcome of OptiWrapper.subject_to per scenario: ('exit'|'raise', number of appends to self.constraints)."""
+    leaves = {}
+    for n in ast.walk(f.node):
+        if isinstance(n, (ast.Compare, ast.Call)):
+            t = ast.unparse(n)
+            if t.endswith("is None") and t.startswith(f.params[1]):
+                leaves[t] = "none"
+            elif t.endswith("is not None") and t.startswith(f.params[1]):
+                leaves[t] = "notnone"
+            elif t.startswith("isinstance(%s" % f.params[1]):
+                leaves[t] = "isinst"
+            elif t.endswith(".is_constant()"):
+                leaves[t] = "const"
+            elif t.startswith("np.all(") and "== 1" in t:
+                leaves[t] = "allone"
+    scen = {"none": dict(none=True, notnone=False, isinst=False, const=False, allone=False),
+            "symbolic": dict(none=False, notnone=True, isinst=True, const=False, allone=False),
+            "const-true": dict(none=False, notnone=True, isinst=True, const=True, allone=True),
+            "const-false": dict(none=False, notnone=True, isinst=True, const=True, allone=False)}
+    out = {}
+    for name, vals in scen.items():
+        env = {t: vals[k] for t, k in leaves.items()}
+
+        class W(Walker):
+            def guard(s, test, state):
+                return const_guard(test, env)
+
+            def join(s, a, b):
+                return max(a, b)
+
+            def transfer(s, node, state):
+                for sub in walk_no_nested(node):
+                    if is_call_to(sub, "append", "self.constraints"):
+                        state += 1
+                return state
+        exits = W().run(f.node.body, 0)
+        out[name] = ("raise", 0) if not exits else ("exit", max(e.state for e in exits))
+    return out
+
+
 @rule("R04.10", min_instances=7, desc="OptiWrapper stores each constraint once (constant-true dropped, constant-false raises) and replays each stored constraint once, in order")
 def r04_10(ctx):
     prog = ctx.prog
@@ -658,19 +699,13 @@ def r04_10(ctx):
     ok = len(apps) == 1 and isinstance(apps[0].args[0], ast.Tuple) and ast.unparse(apps[0].args[0].elts[0]) == f.params[1] and not sc.enclosing_loops(apps[0])
     ctx.check(ok, "OptiWrapper.subject_to stores the expression once", detail="constraint storage", expected="self.constraints.append((expr, scale, meta))",
               found="; ".join(ast.unparse(a) for a in apps), fi=f)
-    # the only ways not to store: expr is None (reset), constant-true (return), constant-false (raise)
-    if apps:
-        gs = [(ast.unparse(t), p) for t, p in sc.guards(apps[0])]
-        ctx.check(gs == [("expr is None", False)], "OptiWrapper.subject_to storing path", detail="constraint dropped under an extra condition",
-                  expected="stored whenever expr is not None (after the constant filter)", found=str(gs), fi=f)
-    consts = [i for i in walk_no_nested(f.node) if isinstance(i, ast.If) and "is_constant" in ast.unparse(i.test)]
-    ok = len(consts) == 1
-    if ok:
-        ci = consts[0]
-        inner = [i for i in ci.body if isinstance(i, ast.If)]
-        ok = len(inner) == 1 and any(isinstance(s, ast.Return) for s in inner[0].body) and any(isinstance(s, ast.Raise) for s in inner[0].orelse) \
-            and "==1" in ast.unparse(inner[0].test).replace(" ", "") and "np.all" in ast.unparse(inner[0].test)
-    ctx.check(ok, "OptiWrapper.subject_to constant filter", detail="constant constraints", expected="constant-true dropped, constant-false raises", found="", fi=f)
+    # outcome table: expr None -> nothing stored; non-constant -> stored once; constant-true -> dropped; constant-false -> raises
+    table = subject_to_scenarios(f)
+    want = {"none": ("exit", 0), "symbolic": ("exit", 1), "const-true": ("exit", 0), "const-false": ("raise", 0)}
+    for sc_name, w in want.items():
+        got = table.get(sc_name)
+        ctx.check(got == w, "OptiWrapper.subject_to outcome for a %s constraint" % sc_name, detail="constraint stored / dropped / rejected wrongly",
+                  expected="%s, %d stored" % w, found=str(got), fi=f, sample={"scenario": sc_name, "outcome": str(got)})
     g = prog.own_method("OptiWrapper", "transcribe_placeholders")
     scg = ctx.scope(g)
     ng = ctx.norm(g)
@@ -692,8 +727,10 @@ def r04_10(ctx):
                   expected="continue only under MX(c).is_constant() and MX(c).is_one()", found=str(len(conts)), fi=g)
         # the zip pairs res[:n_constr] with the scales and metas of the same list, same order
         it = l.iter
-        ok = isinstance(it, ast.Call) and len(it.args) == 3 and ng.key(it.args[0]).startswith("placeholders([c[0] for c in self.constraints]") and \
-            ast.unparse(it.args[1]) == "[c[1] for c in self.constraints]" and ast.unparse(it.args[2]) == "[c[2] for c in self.constraints]"
+        K = lambda t: Norm(None).key(ast.parse(t, mode="eval").body)
+        ok = isinstance(it, ast.Call) and len(it.args) == 3 and isinstance(it.args[0], ast.Subscript) and \
+            ng.key(it.args[0].value).startswith(K("placeholders([c[0] for c in self.constraints])")[:-2]) and \
+            Norm(None).key(it.args[1]) == K("[c[1] for c in self.constraints]") and Norm(None).key(it.args[2]) == K("[c[2] for c in self.constraints]")
         ctx.check(ok, "transcribe_placeholders pairs expression, scale and meta of the same stored constraint", detail="replay pairing",
                   expected="zip(res[:n_constr], [c[1]...], [c[2]...])", found=ast.unparse(it)[:120], fi=g)
         reset = [c for c in walk_no_nested(g.node) if isinstance(c, ast.Call) and ast.unparse(c.func) == "Opti.subject_to" and len(c.args) == 1]
